@@ -387,6 +387,29 @@ theorem C01_R_size_is_max_end_partial (sd : StructDef) (ps : List Val) (buf : Li
     | none => rw [hsz] at hv; cases hv
     | some q => rw [hsz] at hv; simp only [Option.map_some, Option.some.injEq, Val.int.injEq] at hv; rw [hv]
 
+/-- `C01_constants` (partial): `$max_size_in_*` / `$min_size_in_*` (and every other virtual field
+whose value the compiler folded to a literal, without `[requires]`) read the same constant on
+**every** view — any buffer (the empty one included), any parameters, even the null view of an
+absent field — at every fuel ≥ 1.  That the constants bracket the run-time size
+(`Min ≤ SizeIn… ≤ Max`) is `C05_bounds_functions` (`$upper_bound`/`$lower_bound` are sound) on
+the bounds model; here it is checked on every observation of every run
+(`harness/corr/C01.py: constants_violations`). -/
+theorem C01_constants_partial (m : Module) (o : Oracle) (w : SView) (x : String) (f : Field)
+    (hf : w.sd.field x = some f) (c : Val) (orig : Expr) (hk : f.kind = .virt (.fold c orig) none) :
+    (step m o).read w [x] = some c ∧ (step m o).okAt w [x] = true := by
+  simp [step, hf, hk, virtRead, eval, valueIsOk]
+
+def exConstSd : StructDef :=
+  { name := "S", unit := 8, params := [], requires := none, sizeField := "$size",
+    fields := [ { name := "$max", anon := false, cond := .const (.bool true),
+                  kind := .virt (.fold (.int 5) (.op .max (.cons (.ref ["q"]) .nil))) none } ] }
+
+/-- non-vacuity: a `$max_size_in_bytes = 5` field on the empty buffer and on a null view -/
+example :
+    (G { structs := [exConstSd] } 1).read (rootView exConstSd [] []) ["$max"] = some (.int 5) ∧
+    (G { structs := [exConstSd] } 1).read (nullView exConstSd) ["$max"] = some (.int 5) := by
+  decide
+
 /-- `struct Flat(p: UInt:8): 0 [+1] UInt n / if n > 0: n+1 [+1] UInt y [requires: this < 200] /
 let v = y + p / let $size = …` -/
 def exFlatPhys : List Field :=
